@@ -55,24 +55,25 @@ import (
 // parameters of one execution
 
 type c22Params struct {
-	N          int       `json:"n"`
-	Byz        []int     `json:"byzantine"`
-	Parents    []int     `json:"tree_parents"`
-	Salt       uint64    `json:"salt"`
-	SetID      uint64    `json:"set_id"`
-	IntervalMs int       `json:"interval_ms"`
-	Rounds     int       `json:"rounds_target"`
-	DropPct    int       `json:"drop_pct"`
-	DupPct     int       `json:"dup_pct"`
-	MaxDelayMs int       `json:"max_delay_ms"`
-	SlowPct    int       `json:"slow_link_pct"`
-	Release    [][]int   `json:"block_release_ms"` // [authority][block] ms after start; -1 never; 0 = present at start
-	NetSeed    uint64    `json:"net_seed"`
-	AdvSeed    uint64    `json:"adv_seed"`
-	Script     string    `json:"script"`                 // "" = randomised adversary, otherwise the name of a fixed scenario
-	Hold       [][]int   `json:"link_hold_ms,omitempty"` // [from][to] extra delay of every honest message on that link
-	Split      *c22Split `json:"split,omitempty"`        // split-vote scenario (script "split-vote")
-	CapMs      int       `json:"wall_cap_ms"`
+	N          int         `json:"n"`
+	Byz        []int       `json:"byzantine"`
+	Parents    []int       `json:"tree_parents"`
+	Salt       uint64      `json:"salt"`
+	SetID      uint64      `json:"set_id"`
+	IntervalMs int         `json:"interval_ms"`
+	Rounds     int         `json:"rounds_target"`
+	DropPct    int         `json:"drop_pct"`
+	DupPct     int         `json:"dup_pct"`
+	MaxDelayMs int         `json:"max_delay_ms"`
+	SlowPct    int         `json:"slow_link_pct"`
+	Release    [][]int     `json:"block_release_ms"` // [authority][block] ms after start; -1 never; 0 = present at start
+	NetSeed    uint64      `json:"net_seed"`
+	AdvSeed    uint64      `json:"adv_seed"`
+	Script     string      `json:"script"`                 // "" = randomised adversary, otherwise the name of a fixed scenario
+	Hold       [][]int     `json:"link_hold_ms,omitempty"` // [from][to] extra delay of every honest message on that link
+	Split      *c22Split   `json:"split,omitempty"`        // split-vote scenario (script "split-vote")
+	Handoff    *c22Handoff `json:"handoff,omitempty"`      // authority set hand-off during the run (zz_verif_c22_handoff_test.go)
+	CapMs      int         `json:"wall_cap_ms"`
 }
 
 // c22Split describes a split-vote scenario: the honest voters are divided into two halves, each half knows
@@ -95,7 +96,7 @@ func (sp *c22Split) inA(i int) bool {
 }
 
 func (p *c22Params) isByz(i int) bool {
-	for _, b := range p.Byz {
+	for _, b := range p.byzIDs() {
 		if b == i {
 			return true
 		}
@@ -197,6 +198,7 @@ type c22Sim struct {
 	honDeliv   int
 	imported   int
 	importFail int
+	hand       *c22HandState // nil without a hand-off
 }
 
 func (s *c22Sim) count(name string, n int) {
@@ -424,6 +426,7 @@ func (s *c22Sim) onFinalise(i int, f verifFinalisation) {
 	s.mu.Unlock()
 	if f.Err == nil {
 		s.estimateScriptOnFinalise(i, f.Round)
+		s.handoffOnFinalise(i, f)
 	}
 }
 
@@ -510,7 +513,7 @@ func (s *c22Sim) run() error {
 	for _, i := range s.hon {
 		i := i
 		rel := p.Release[i]
-		node, err := verifNewNode(s.tree, s.keys, verifNodeOpts{Self: i, SetID: p.SetID, Interval: s.ms(p.IntervalMs),
+		node, err := verifNewNode(s.tree, s.keys[:p.N], verifNodeOpts{Self: i, SetID: p.SetID, Interval: s.ms(p.IntervalMs),
 			SkipBlock: func(b int) bool { return rel[b] != 0 }})
 		if err != nil {
 			for _, n := range s.nodes {
@@ -583,16 +586,23 @@ func (s *c22Sim) run() error {
 		next(0)
 	}
 	s.adv.begin()
+	s.handoffBegin()
 
 	// pacing only: wait until every live honest node finalised the target number of rounds (or the cap)
 	capAt := s.start.Add(s.ms(p.CapMs))
+	reached := func() bool {
+		if p.Handoff != nil {
+			return s.handoffTargetReached()
+		}
+		return s.minRound() >= uint64(p.Rounds) //nolint:gosec
+	}
 	for time.Now().Before(capAt) {
-		if s.minRound() >= uint64(p.Rounds) { //nolint:gosec
+		if reached() {
 			break
 		}
 		time.Sleep(5 * time.Millisecond)
 	}
-	if s.minRound() < uint64(p.Rounds) { //nolint:gosec
+	if !reached() {
 		s.count("stopped_at_wall_cap", 1)
 	}
 
@@ -645,7 +655,7 @@ type c22Adv struct {
 
 func (a *c22Adv) begin() {
 	s := a.s
-	if len(s.p.Byz) == 0 {
+	if len(s.p.byzIDs()) == 0 {
 		return
 	}
 	if s.p.Script != "" {
@@ -735,9 +745,10 @@ func c22ForkBlockAgainst(t *verifTree, r *vcommon.Rand, base, m int) int {
 // snapshot, so that an honest service is never held up by the harness); it never calls into a service.
 func (a *c22Adv) observe(from int, gm GrandpaMessage) {
 	s := a.s
-	if len(s.p.Byz) == 0 {
+	if len(s.p.byzIDs()) == 0 {
 		return
 	}
+	a.handoffObserve(from, gm)
 	if s.p.Script != "" {
 		a.observeScript(from, gm)
 		return
@@ -747,31 +758,32 @@ func (a *c22Adv) observe(from int, gm GrandpaMessage) {
 	switch m := gm.(type) {
 	case *VoteMessage:
 		st := byte(m.Message.Stage)
-		if a.votes[m.Round] == nil {
-			a.votes[m.Round] = map[byte]map[int]*VoteMessage{}
+		vk := c22RoundKey(m.Round, m.SetID)
+		if a.votes[vk] == nil {
+			a.votes[vk] = map[byte]map[int]*VoteMessage{}
 		}
-		if a.votes[m.Round][st] == nil {
-			a.votes[m.Round][st] = map[int]*VoteMessage{}
+		if a.votes[vk][st] == nil {
+			a.votes[vk][st] = map[int]*VoteMessage{}
 		}
-		a.votes[m.Round][st][from] = m
+		a.votes[vk][st][from] = m
 		stage := m.Message.Stage
 		if stage == primaryProposal {
 			stage = prevote
 		}
-		key := fmt.Sprintf("%d/%d", m.Round, stage)
+		key := fmt.Sprintf("%d/%d/%d", m.SetID, m.Round, stage)
 		if !a.stageSeen[key] {
 			a.stageSeen[key] = true
 			r, round, set := a.r.Fork(), m.Round, m.SetID
 			s.after(0, func() { a.playStage(r, round, set, stage) })
 		}
 		if m.Message.Stage == precommit {
-			k2 := fmt.Sprintf("forge/%d", m.Round)
-			n := len(a.votes[m.Round][byte(precommit)])
+			k2 := fmt.Sprintf("forge/%d/%d", m.SetID, m.Round)
+			n := len(a.votes[vk][byte(precommit)])
 			// once when the first precommit shows up, once when about half of the honest have precommitted
 			if (n == 1 || n == (len(s.hon)+1)/2) && a.forged[k2] < 2 {
 				a.forged[k2]++
 				snap := map[byte]map[int]*VoteMessage{}
-				for st, vs := range a.votes[m.Round] {
+				for st, vs := range a.votes[vk] {
 					snap[st] = map[int]*VoteMessage{}
 					for k, v := range vs {
 						snap[st][k] = v
@@ -780,7 +792,7 @@ func (a *c22Adv) observe(from int, gm GrandpaMessage) {
 				r, round, set := a.r.Fork(), m.Round, m.SetID
 				s.after(0, func() { a.forgeCommits(r, snap, round, set) })
 			}
-			k3 := fmt.Sprintf("prim/%d", m.Round+1)
+			k3 := fmt.Sprintf("prim/%d/%d", m.SetID, m.Round+1)
 			if !a.stageSeen[k3] {
 				a.stageSeen[k3] = true
 				r, round, set := a.r.Fork(), m.Round+1, m.SetID
@@ -788,12 +800,14 @@ func (a *c22Adv) observe(from int, gm GrandpaMessage) {
 			}
 		}
 	case *CommitMessage:
-		if a.commits[m.Round] == nil {
-			a.commits[m.Round] = m
+		// (an honest commit message always carries set id 0: newCommitMessage leaves it unset)
+		ck := c22RoundKey(m.Round, a.commitSet(from))
+		if a.commits[ck] == nil {
+			a.commits[ck] = m
 			if a.r.Chance(1, 3) {
 				// replay a genuine commit to everybody (legitimate, helps laggards) — possibly much later
 				for _, to := range s.hon {
-					a.sendCommit(s.p.Byz[0], to, m, a.r.Intn(6*s.p.IntervalMs+1), "replay-genuine")
+					a.sendCommit(s.p.byzIDs()[0], to, m, a.r.Intn(6*s.p.IntervalMs+1), "replay-genuine")
 				}
 			}
 		}
@@ -805,7 +819,7 @@ func (a *c22Adv) playStage(r *vcommon.Rand, round, setID uint64, stage Subround)
 	s, t := a.s, a.s.tree
 	lowest, _ := s.heads()
 	iv := s.p.IntervalMs
-	for _, b := range s.p.Byz {
+	for _, b := range s.p.byzIDs() {
 		kp := s.keys[b]
 		switch mode := r.Intn(10); {
 		case mode < 1: // silent
@@ -891,7 +905,8 @@ func (a *c22Adv) playStage(r *vcommon.Rand, round, setID uint64, stage Subround)
 // primarySplit: a Byzantine primary of `round` proposes different blocks to different honest nodes.
 func (a *c22Adv) primarySplit(r *vcommon.Rand, round, setID uint64) {
 	s, t := a.s, a.s.tree
-	prim := int(round % uint64(s.p.N)) //nolint:gosec
+	au := s.p.authOf(setID)
+	prim := au[int(round%uint64(len(au)))] //nolint:gosec
 	if !s.p.isByz(prim) {
 		return
 	}
@@ -931,7 +946,8 @@ func c22Garbage(r *vcommon.Rand) [64]byte {
 // forgeCommits sends forged / short / adversarial commit messages for `round`.
 func (a *c22Adv) forgeCommits(r *vcommon.Rand, snap map[byte]map[int]*VoteMessage, round, setID uint64) {
 	s, t := a.s, a.s.tree
-	n := s.p.N
+	au := s.p.authOf(setID) // the authorities of the set the commit is labelled with
+	n := len(au)
 	threshold := 2 * n / 3
 	iv := s.p.IntervalMs
 	// what the honest majority precommits in this round
@@ -986,14 +1002,14 @@ func (a *c22Adv) forgeCommits(r *vcommon.Rand, snap map[byte]map[int]*VoteMessag
 		}
 		switch kind {
 		case "garbage-pairs": // every authority twice with two different random signatures
-			for i := 0; i < n; i++ {
+			for _, i := range au {
 				for j := 0; j < 2; j++ {
 					pcs = append(pcs, SignedVote{Vote: target, Signature: c22Garbage(r), AuthorityID: verifPub(s.keys[i])})
 				}
 			}
 		case "dup-authority": // the Byzantine precommits are valid but listed many times
 			for j := 0; j <= threshold; j++ {
-				for _, b := range s.p.Byz {
+				for _, b := range s.p.byzIDs() {
 					pcs = append(pcs, byzVote(b, x, cmRound, cmSet))
 				}
 			}
@@ -1002,7 +1018,7 @@ func (a *c22Adv) forgeCommits(r *vcommon.Rand, snap map[byte]map[int]*VoteMessag
 				x = maj
 				target = t.Vote(x)
 			}
-			for _, b := range s.p.Byz {
+			for _, b := range s.p.byzIDs() {
 				pcs = append(pcs, byzVote(b, x, cmRound, cmSet))
 			}
 			for _, sv := range honestFor(x) {
@@ -1010,16 +1026,16 @@ func (a *c22Adv) forgeCommits(r *vcommon.Rand, snap map[byte]map[int]*VoteMessag
 					pcs = append(pcs, sv)
 				}
 			}
-			for i := 0; len(pcs) < threshold+1+r.Intn(2) && i < n; i++ { // padding that must not count
-				if !s.p.isByz(i) {
+			for k := 0; len(pcs) < threshold+1+r.Intn(2) && k < n; k++ { // padding that must not count
+				if i := au[k]; !s.p.isByz(i) {
 					pcs = append(pcs, SignedVote{Vote: target, Signature: c22Garbage(r), AuthorityID: verifPub(s.keys[i])})
 				}
 			}
 		case "other-set": // consistently signed for another set id
-			for _, b := range s.p.Byz {
+			for _, b := range s.p.byzIDs() {
 				pcs = append(pcs, byzVote(b, x, cmRound, cmSet+1))
 			}
-			for i := 0; i < n; i++ {
+			for _, i := range au {
 				if !s.p.isByz(i) {
 					pcs = append(pcs, SignedVote{Vote: target, Signature: c22Garbage(r), AuthorityID: verifPub(s.keys[i])})
 				}
@@ -1033,11 +1049,11 @@ func (a *c22Adv) forgeCommits(r *vcommon.Rand, snap map[byte]map[int]*VoteMessag
 				s.recordVote("byz", sv.AuthorityID, precommit, sv.Vote, cmRound, cmSet, sv.Signature)
 				pcs = append(pcs, sv)
 			}
-			for _, b := range s.p.Byz {
+			for _, b := range s.p.byzIDs() {
 				pcs = append(pcs, byzVote(b, x, cmRound, cmSet))
 			}
 		case "short": // only the Byzantine precommits
-			for _, b := range s.p.Byz {
+			for _, b := range s.p.byzIDs() {
 				pcs = append(pcs, byzVote(b, x, cmRound, cmSet))
 			}
 		case "wrong-stage": // genuine honest PREVOTES presented as precommits
@@ -1048,11 +1064,11 @@ func (a *c22Adv) forgeCommits(r *vcommon.Rand, snap map[byte]map[int]*VoteMessag
 					x, target = b, t.Vote(b)
 				}
 			}
-			for _, b := range s.p.Byz {
+			for _, b := range s.p.byzIDs() {
 				pcs = append(pcs, byzVote(b, x, cmRound, cmSet))
 			}
 		case "mixed": // Byzantine equivocation (counts once each) + genuine precommits for ANOTHER fork + garbage
-			for _, b := range s.p.Byz {
+			for _, b := range s.p.byzIDs() {
 				pcs = append(pcs, byzVote(b, x, cmRound, cmSet))
 				other := t.Descendants(head)
 				pcs = append(pcs, byzVote(b, other[r.Intn(len(other))], cmRound, cmSet))
@@ -1061,7 +1077,7 @@ func (a *c22Adv) forgeCommits(r *vcommon.Rand, snap map[byte]map[int]*VoteMessag
 				pcs = append(pcs, honestFor(maj)...)
 			}
 		case "auth-len-mismatch":
-			for _, b := range s.p.Byz {
+			for _, b := range s.p.byzIDs() {
 				pcs = append(pcs, byzVote(b, x, cmRound, cmSet))
 			}
 		}
@@ -1074,11 +1090,11 @@ func (a *c22Adv) forgeCommits(r *vcommon.Rand, snap map[byte]map[int]*VoteMessag
 		if kind == "auth-len-mismatch" && len(cm.AuthData) > 0 {
 			cm.AuthData = cm.AuthData[:len(cm.AuthData)-1]
 		}
-		a.sendCommit(s.p.Byz[0], victim, cm, r.Intn(3*iv+1), kind)
+		a.sendCommit(s.p.byzIDs()[0], victim, cm, r.Intn(3*iv+1), kind)
 		if r.Chance(1, 4) {
 			for _, to := range s.hon {
 				if to != victim {
-					a.sendCommit(s.p.Byz[0], to, cm, r.Intn(5*iv+1), kind)
+					a.sendCommit(s.p.byzIDs()[0], to, cm, r.Intn(5*iv+1), kind)
 				}
 			}
 		}
@@ -1125,7 +1141,7 @@ func (a *c22Adv) splitScriptOnVote(m *VoteMessage) {
 	if stage == primaryProposal {
 		stage = prevote
 	}
-	key := fmt.Sprintf("split/%d/%d", m.Round, stage)
+	key := fmt.Sprintf("split/%d/%d/%d", m.SetID, m.Round, stage)
 	if a.stageSeen[key] {
 		return
 	}
@@ -1136,7 +1152,7 @@ func (a *c22Adv) splitScriptOnVote(m *VoteMessage) {
 
 func (a *c22Adv) playSplit(round, setID uint64, stage Subround) {
 	s, t, sp := a.s, a.s.tree, a.s.p.Split
-	for _, b := range s.p.Byz {
+	for _, b := range s.p.byzIDs() {
 		for _, to := range s.hon {
 			tip := sp.TipB
 			if sp.inA(to) {
@@ -1361,13 +1377,14 @@ func (a *c22Adv) observeScript(from int, gm GrandpaMessage) {
 	a.mu.Lock()
 	defer a.mu.Unlock()
 	st := byte(m.Message.Stage)
-	if a.votes[m.Round] == nil {
-		a.votes[m.Round] = map[byte]map[int]*VoteMessage{}
+	vk := c22RoundKey(m.Round, m.SetID)
+	if a.votes[vk] == nil {
+		a.votes[vk] = map[byte]map[int]*VoteMessage{}
 	}
-	if a.votes[m.Round][st] == nil {
-		a.votes[m.Round][st] = map[int]*VoteMessage{}
+	if a.votes[vk][st] == nil {
+		a.votes[vk][st] = map[int]*VoteMessage{}
 	}
-	a.votes[m.Round][st][from] = m
+	a.votes[vk][st][from] = m
 	switch a.s.p.Script {
 	case "estimate-not-carried-over":
 		a.estimateScriptOnVote(from, m)
@@ -1592,12 +1609,25 @@ type c22Verdict struct {
 	Finalised   map[int][]int // per node: blocks in order
 	NodesFinal  int
 	Pairs       int
+	// hand-off executions: finalisations under the new set id per node; finalisations of a node whose own key is
+	// not in the set it finalised under and that lack a supermajority of that set (counted, see NOTES.md)
+	NewSetFinal         map[int]int
+	OutsiderUnjustified []map[string]any
 }
 
 // c22Check decides from the recorded history alone.
 func c22Check(p *c22Params, t *verifTree, keys []*ed25519.Keypair, events []c22Event, votes []c22VoteRec) *c22Verdict {
-	v := &c22Verdict{Finalised: map[int][]int{}}
-	n := p.N
+	v := &c22Verdict{Finalised: map[int][]int{}, NewSetFinal: map[int]int{}}
+	// the authority set (key indexes) and its size are those of the set id the node finalised under: the harness'
+	// own record of which keys form which set (p.authOf), not the service's voter list
+	member := func(set uint64, a int) bool {
+		for _, x := range p.authOf(set) {
+			if x == a {
+				return true
+			}
+		}
+		return false
+	}
 	// --- valid precommits that exist, per (round, set): authority -> set of distinct votes
 	type rs struct{ r, s uint64 }
 	pcs := map[rs]map[int]map[Vote]bool{}
@@ -1644,6 +1674,9 @@ func c22Check(p *c22Params, t *verifTree, keys []*ed25519.Keypair, events []c22E
 	support := func(block int, round, set uint64) (int, []int) {
 		var who []int
 		for a, vs := range pcs[rs{round, set}] {
+			if !member(set, a) {
+				continue // a correctly signed precommit of a key that is not an authority of that set
+			}
 			ok := len(vs) > 1 // equivocator: counts for every block
 			if !ok {
 				for x := range vs {
@@ -1682,9 +1715,17 @@ func c22Check(p *c22Params, t *verifTree, keys []*ed25519.Keypair, events []c22E
 		}
 		last[e.Node] = e.Block
 		v.Finalised[e.Node] = append(v.Finalised[e.Node], e.Block)
-		if cnt, who := support(e.Block, e.Round, e.SetID); cnt*3 <= 2*n {
-			v.Unjustified = append(v.Unjustified, map[string]any{"event": e, "valid_precommit_authorities": who,
-				"needed_more_than": 2 * n / 3})
+		if p.Handoff != nil && e.SetID == p.SetID+1 {
+			v.NewSetFinal[e.Node]++
+		}
+		if cnt, who := support(e.Block, e.Round, e.SetID); cnt*3 <= 2*len(p.authOf(e.SetID)) {
+			w := map[string]any{"event": e, "valid_precommit_authorities": who, "authorities_of_that_set": p.authOf(e.SetID),
+				"needed_more_than": 2 * len(p.authOf(e.SetID)) / 3}
+			if !member(e.SetID, e.Node) {
+				v.OutsiderUnjustified = append(v.OutsiderUnjustified, w)
+			} else {
+				v.Unjustified = append(v.Unjustified, w)
+			}
 		}
 	}
 	v.NodesFinal = len(v.Finalised)
@@ -1710,9 +1751,10 @@ func c22Check(p *c22Params, t *verifTree, keys []*ed25519.Keypair, events []c22E
 			seen[k] = true
 			ca, wa := support(a.Block, a.Round, a.SetID)
 			cb, wb := support(b.Block, b.Round, b.SetID)
+			na, nb := len(p.authOf(a.SetID)), len(p.authOf(b.SetID))
 			w := map[string]any{"first": a, "second": b,
-				"first_supermajority": ca*3 > 2*n, "first_precommit_authorities": wa,
-				"second_supermajority": cb*3 > 2*n, "second_precommit_authorities": wb}
+				"first_supermajority": ca*3 > 2*na, "first_precommit_authorities": wa,
+				"second_supermajority": cb*3 > 2*nb, "second_precommit_authorities": wb}
 			// Attribution to known finding C22-K1 (a voter does not carry the estimate of round r into round
 			// r+1). Decided from the history alone: both finalisations are backed by a genuine supermajority of
 			// correctly signed precommits, no honest service equivocated, the two rounds differ, and an honest
@@ -1723,7 +1765,7 @@ func c22Check(p *c22Params, t *verifTree, keys []*ed25519.Keypair, events []c22E
 				lo, hi = hi, lo
 			}
 			var switched []map[string]any
-			if ca*3 > 2*n && cb*3 > 2*n && len(v.HonestEquiv) == 0 && lo.SetID == hi.SetID && lo.Round < hi.Round {
+			if ca*3 > 2*na && cb*3 > 2*nb && len(v.HonestEquiv) == 0 && lo.SetID == hi.SetID && lo.Round < hi.Round {
 				for _, pc := range honestVotes {
 					if pc.Stage != byte(precommit) || pc.Round != lo.Round || pc.SetID != lo.SetID || pc.Block < 0 ||
 						!t.IsAncestorOrEqual(lo.Block, pc.Block) {
@@ -1772,12 +1814,15 @@ func c22Execute(c *vcommon.Case, p *c22Params) (observed map[string]int) {
 		}
 	}()
 	tree := verifTreeFromParents(p.Parents, p.Salt)
-	keys := verifKeypairs(p.Salt^0xc22, p.N)
+	keys := verifKeypairs(p.Salt^0xc22, p.N+p.extraKeys()) // keys[:N] = the first set; further keys join at a hand-off
 	s := &c22Sim{c: c, p: p, tree: tree, keys: keys, outs: verifKeypairs(p.Salt^0x0ddba11, 3),
 		nodes: map[int]*verifNode{}, hon: p.honest(), voteSeen: map[string]bool{}, deliv: map[int][]string{},
 		headOf: map[int]int{}, roundOf: map[int]uint64{}, svcErr: map[int]string{}, svcDump: map[int]string{}, counters: map[string]int{}}
 	s.adv = &c22Adv{s: s, r: vcommon.NewRand(p.AdvSeed), stageSeen: map[string]bool{},
 		votes: map[uint64]map[byte]map[int]*VoteMessage{}, commits: map[uint64]*CommitMessage{}, forged: map[string]int{}}
+	if p.Handoff != nil {
+		s.hand = newC22HandState()
+	}
 	if err := s.run(); err != nil {
 		c.Inconclusive("set-up failed: " + err.Error())
 		return nil
@@ -1799,7 +1844,12 @@ func c22Execute(c *vcommon.Case, p *c22Params) (observed map[string]int) {
 	c.Count("blocks_imported_late", s.imported)
 	c.Count("late_imports_refused", s.importFail)
 	c.Count("deliveries_honest", s.honDeliv)
-	c.Count("deliveries_byzantine", s.byzDeliv)
+	// executions with a hand-off feed their own counters (own floors): the floors of the other groups stay what they were
+	pfx := ""
+	if p.Handoff != nil {
+		pfx = "handoff_"
+	}
+	c.Count(pfx+"deliveries_byzantine", s.byzDeliv)
 	c.Count("byzantine_messages_accepted_without_error", s.byzAccept)
 	for i, e := range s.svcErr {
 		c.Count("round_loop_ended_with_error", 1)
@@ -1849,14 +1899,14 @@ func c22Execute(c *vcommon.Case, p *c22Params) (observed map[string]int) {
 	case v.NodesFinal == 1:
 		c.Count("executions_finalised_on_one_node_only", 1)
 	default:
-		c.Count("executions_finalised_on_2+_nodes", 1)
-		c.Count(fmt.Sprintf("executions_finalised_on_2+_nodes_n%d", p.N), 1)
+		c.Count(pfx+"executions_finalised_on_2+_nodes", 1)
+		c.Count(fmt.Sprintf(pfx+"executions_finalised_on_2+_nodes_n%d", p.N), 1)
 		c.Distinct(fmt.Sprintf("%x", fp.Sum64()))
 		if len(distinctFinal) > 1 {
 			c.Count("executions_with_2+_different_finalised_blocks", 1)
 		}
-		if len(p.Byz) > 0 && s.byzDeliv > 0 {
-			c.Count("executions_finalised_on_2+_nodes_with_byzantine_deliveries", 1)
+		if len(p.byzIDs()) > 0 && s.byzDeliv > 0 {
+			c.Count(pfx+"executions_finalised_on_2+_nodes_with_byzantine_deliveries", 1)
 		}
 	}
 	if s.byzDeliv > 0 {
@@ -1883,12 +1933,15 @@ func c22Execute(c *vcommon.Case, p *c22Params) (observed map[string]int) {
 		}
 		c.Count("split_executions", 1)
 		if okA > 0 && okB > 0 && bad == 0 && s.byzDeliv > 0 {
-			c.Count("split_executions_with_honest_prevotes_split_over_both_forks", 1)
-			c.Count(fmt.Sprintf("split_executions_with_honest_prevotes_split_over_both_forks_n%d", p.N), 1)
+			c.Count(pfx+"split_executions_with_honest_prevotes_split_over_both_forks", 1)
+			c.Count(fmt.Sprintf(pfx+"split_executions_with_honest_prevotes_split_over_both_forks_n%d", p.N), 1)
 			observed["split_situation"] = 1
 		}
 	}
-	if p.Script != "" && !(p.Script == "split-vote" && strings.HasPrefix(c.ID, "split/")) {
+	if p.Handoff != nil {
+		s.handoffCounters(c, v, events, votes, observed)
+		summary["handoff_applied_ms"] = s.hand.appliedMs
+	} else if p.Script != "" && !(p.Script == "split-vote" && strings.HasPrefix(c.ID, "split/")) {
 		name := p.Script
 		if name == "split-vote" {
 			name = "split-vote-n5"
@@ -1909,6 +1962,9 @@ func c22Execute(c *vcommon.Case, p *c22Params) (observed map[string]int) {
 			dl[fmt.Sprintf("to_node%d", i)] = d
 		}
 		w["deliveries"] = dl
+		if s.hand != nil {
+			w["handoff_applied_ms"] = s.hand.appliedMs
+		}
 		if len(s.svcErr) > 0 {
 			w["round_loop_errors"] = s.svcErr
 			w["round_loop_error_state"] = s.svcDump
@@ -2105,6 +2161,46 @@ func TestVerifC22(t *testing.T) {
 			c.Count("script_attempt_that_did_not_reach_its_situation", 1)
 		}
 	})
+	// authority set hand-off during live rounds (zz_verif_c22_handoff_test.go)
+	r.Floor("handoff_executions", 18)
+	r.Floor("handoff_applied_on_nodes", 30)
+	r.Floor("handoff_executions_with_nodes_switched_at_different_moments", 8)
+	r.Floor("handoff_honest_votes_signed_under_new_set", 40)
+	r.Floor("handoff_executions_finalised_under_new_set_on_2+_nodes", 2)
+	r.Floor("handoff_deliveries_byzantine", 100)
+	for _, v := range c22HandoffVariants {
+		r.Floor("handoff_variant:"+v, 2)
+	}
+	for _, name := range c22HandoffScripts {
+		r.Floor("script:"+name, 1)
+	}
+	r.Floor("handoff_split_executions_with_honest_prevotes_split_under_new_set", 1)
+	hNeeds := map[string]string{c22HandoffScripts[0]: "handoff_split_situation", c22HandoffScripts[1]: "handoff_split_situation",
+		c22HandoffScripts[2]: "handoff_new_set_2+"}
+	r.Floor("script:handoff-commit-set-id-race", 1)
+	r.Fixed("handoff-race", 1, c22CommitRaceCase)
+	r.Fixed("handoff-corpus", len(c22HandoffScripts), func(c *vcommon.Case) {
+		for attempt := 0; attempt < 4; attempt++ {
+			p := c22HandoffScriptParams(c.Idx, attempt)
+			obs := c22Execute(c, p)
+			if obs[hNeeds[p.Handoff.Name]] > 0 {
+				break
+			}
+			c.Count("handoff_script_attempt_that_did_not_reach_its_situation", 1)
+		}
+	})
+	r.Cases("handoff", r.Scale(6), func(c *vcommon.Case) {
+		var wg sync.WaitGroup
+		for k := 0; k < c22Batch; k++ {
+			p := c22GenHandoffParams(c, r.Thorough(), k)
+			wg.Add(1)
+			go func() {
+				defer wg.Done()
+				c22Execute(c, p)
+			}()
+		}
+		wg.Wait()
+	})
 	// the seeded split-vote family (n = 5, 8 over-represented; also 4, 6, 7)
 	r.Cases("split", r.Scale(8), func(c *vcommon.Case) {
 		var wg sync.WaitGroup
@@ -2119,7 +2215,7 @@ func TestVerifC22(t *testing.T) {
 		wg.Wait()
 	})
 	// one case = a batch of executions that run side by side (an execution mostly waits for the services' timers)
-	r.Cases("sim", r.Scale(17), func(c *vcommon.Case) {
+	r.Cases("sim", r.Scale(13), func(c *vcommon.Case) {
 		var wg sync.WaitGroup
 		for k := 0; k < c22Batch; k++ {
 			p := c22GenParams(c, r.Thorough())
